@@ -35,7 +35,33 @@ def replay(cex):
     from csep.core import poisson_evaluations as pe, binomial_evaluations as be, catalog_evaluations as ce
     k = cex['kind']
     if cex.get('eps'):
-        # the clause is about WHERE the cdf is evaluated: capture the arguments the real code passes
+        # the clause is about WHERE the cdf is evaluated (n - 1 and n). The cdf is a step function with a positive jump at every
+        # integer, so this is decided on the VALUES the real code returns (however it reaches scipy: plain or frozen distribution)
+        n = int(cex['n'])
+
+        class Fo:
+            event_count = 12.5
+            name = 'f'
+            magnitudes = np.array([5.0, 6.0])
+
+        class Ca:
+            event_count = n
+            name = 'c'
+        try:
+            if cex.get('public'):
+                q = (pe.number_test(Fo(), Ca()) if k == 'pois' else be.negative_binomial_number_test(Fo(), Ca(), 40.0)).quantile
+            else:
+                q = (pe._number_test_ndarray(12.5, n) if k == 'pois' else be._nbd_number_test_ndarray(12.5, n, 40.0))
+        except Exception as e:
+            return True, 'n_obs=%d: raised %r' % (n, e)
+        if k == 'pois':
+            w1, w2 = 1.0 - scipy.stats.poisson.cdf(n - 1, 12.5), scipy.stats.poisson.cdf(n, 12.5)
+        else:
+            r_, p_ = 12.5 * 12.5 / (40.0 - 12.5), 12.5 / 40.0
+            w1, w2 = 1.0 - scipy.stats.nbinom.cdf(n - 1, r_, p_), scipy.stats.nbinom.cdf(n, r_, p_)
+        bad = not (abs(float(q[0]) - w1) <= 1e-12 and abs(float(q[1]) - w2) <= 1e-12)
+        return bad, 'n_obs=%d: (delta1, delta2) = %r, 1 - cdf(n-1) and cdf(n) are (%r, %r)' % (n, tuple(float(x) for x in q), w1, w2)
+    if False:
         n = int(cex['n'])
         seen = []
         dist = scipy.stats.poisson if k == 'pois' else scipy.stats.nbinom
@@ -145,6 +171,15 @@ class _Rec:
         if core.MODE['float'] == 'fp':
             return SFP(z3.FP('cdf!%d' % k, F64))
         return XR(z3.Real('cdf!%d' % k))
+
+    def __call__(self, *params, **kw):
+        # frozen distribution: scipy.stats.poisson(mu).cdf(x) is poisson.cdf(x, mu)
+        outer = self
+
+        class Frozen:
+            def cdf(self_, x):
+                return outer.cdf(x, *params)
+        return Frozen()
 
 
 def _job_eps(job):
